@@ -35,8 +35,9 @@ class EngineCase:
     functions = (TENSOR_BACKWARD, "synapgrad.tensor.Tensor.zero_", "synapgrad.tensor.Tensor.grad (setter)", "synapgrad.tensor.Tensor.is_leaf")
     expect = "engine"
 
-    def __init__(self, leaf_flags, interior, root, retain=(), preexisting=False, twice=False):
+    def __init__(self, leaf_flags, interior, root, retain=(), preexisting=False, twice=False, rejected_first=False):
         self.twice = twice                  # a second backward call from the same root: every op contributes once PER CALL
+        self.rejected_first = rejected_first  # a first call with an upstream gradient of the wrong shape is refused -- and must leave nothing behind that disturbs the next call
         self.leaf_flags = tuple(leaf_flags)
         self.interior = tuple(tuple(c) for c in interior)
         self.root = root
@@ -44,7 +45,7 @@ class EngineCase:
         self.preexisting = preexisting      # leaves start with an existing symbolic gradient buffer
         self.name = "Tensor.backward[engine]"
         self.key = {"leaf_requires_grad": list(leaf_flags), "children": [list(c) for c in interior], "root": root,
-                    "retain_grad": list(retain), "preexisting_leaf_grads": preexisting, "second_backward": twice}
+                    "retain_grad": list(retain), "preexisting_leaf_grads": preexisting, "second_backward": twice, "after_a_rejected_call": rejected_first}
 
     def run(self, seed):
         res = {"name": self.name, "key": self.key, "obligations": 0, "discharged": 0, "backends": {}, "paths": 1, "solver_s": 0.0,
@@ -125,6 +126,16 @@ class EngineCase:
             if not root.requires_grad:
                 res["status"] = "rejected"
                 return
+            if self.rejected_first:
+                bad = np.empty((2,), dtype=object)
+                bad[0], bad[1] = S(sess.var("gbad0")), S(sess.var("gbad1"))
+                try:
+                    root.backward(Tensor(bad))          # 0-d root, gradient of shape (2,): refused
+                    ob("rejects_gradient_of_the_wrong_shape", False, "backward accepted an upstream gradient of shape (2,) for a 0-d root")
+                    return
+                except Exception:
+                    ob("rejects_gradient_of_the_wrong_shape", True, "")
+                calls.clear()
             garr = np.empty((), dtype=object)
             garr[()] = S(sess.var("g"))
             try:
@@ -278,6 +289,14 @@ def engine_cases(tier, seed):
         if any((2 + j) not in used for j in range(2)):
             continue
         cases.append(EngineCase((True, True), dag, 4, retain=(2, 3), twice=True))
+    # a refused call (wrong-shaped upstream gradient) followed by a valid one, on every 2-leaf graph with <= 2 interior nodes
+    for n_int in (1, 2):
+        for dag in enumerate_dags(2, n_int, ordered=False, max_fanin=2):
+            used = set(c for ch in dag for c in ch)
+            if any((2 + j) not in used for j in range(n_int - 1)):
+                continue
+            cases.append(EngineCase((True, True), dag, 2 + n_int - 1, rejected_first=True))
+            cases.append(EngineCase((True, False), dag, 2 + n_int - 1, rejected_first=True, retain=(2,) if n_int > 1 else ()))
     # fan-in 3 with repeats, 3 leaves, every root choice, retain_grad, pre-existing buffers
     extra = []
     for dag in enumerate_dags(3, 2, ordered=False, max_fanin=3):
